@@ -70,6 +70,52 @@ def S_schema3(Q, n):
     return Q.from_(r["Schema"](n, parent=r["Database"]("db")).tbl).select("a")
 
 
+def S_schema_list3_outer(Q, n):
+    return Q.from_(_r()["Table"]("t", schema=[n, "db", "sch"])).select("a")
+
+
+def S_schema_list3_middle(Q, n):
+    return Q.from_(_r()["Table"]("t", schema=("srv", n, "sch"))).select("a")
+
+
+def S_schema_list3_inner(Q, n):
+    t = _r()["Table"]("t", schema=["srv", "db", n])
+    return Q.from_(t).select(t.a).where(t.b == 1)
+
+
+def S_schema_list4_middle(Q, n):
+    return Q.from_(_r()["Table"]("t", schema=["h", "srv", n, "sch"])).select("a")
+
+
+def S_schema_factory_list(Q, n):
+    t, u = Q.Tables("t", "u", schema=["srv", n, "sch"])
+    return Q.from_(t).select(t.a).join(u).on(t.id == u.id)
+
+
+def S_schema_object_chain3(Q, n):
+    r = _r()
+    S = r["Schema"]
+    return Q.from_(r["Table"]("t", schema=S("sch", parent=S(n, parent=S("srv"))))).select("a")
+
+
+def S_temporal_table_name(Q, n):
+    r = _r()
+    t = r["Table"](n).for_(r["SystemTimeValue"]() == "2020-01-01")
+    return Q.from_(t).select(t.a)
+
+
+def S_temporal_table_schema(Q, n):
+    r = _r()
+    t = r["Table"]("t", schema=n).for_portion(r["SystemTimeValue"]().from_to("2020-01-01", "2021-01-01"))
+    return Q.update(t).set("a", 1)
+
+
+def S_temporal_table_alias(Q, n):
+    r = _r()
+    t = r["Table"]("t", alias=n).for_(r["SystemTimeValue"]() == "2020-01-01")
+    return Q.from_(t).select(t.a)
+
+
 def S_column_select(Q, n):
     r = _r()
     t = r["Table"]("t")
@@ -435,7 +481,7 @@ def run_case(case, mon):
     # 1. the marker statement itself: every occurrence of the marker is one identifier token in the dialect's quote
     occ = [t for t in tm if MARK in t.text]
     if not occ:
-        mon.inconc("site %s does not emit the name" % site)
+        mon.violation("name-dropped:%s:%s" % (site, fam), "the name given at site %s does not appear in the statement at all: %r" % (site, sql_m[:240]))
         return
     for t in occ:
         if not (t.kind == "IDENT" and t.value == MARK and t.text[0] == q):
